@@ -21,7 +21,8 @@ func genOptions(t *rapid.T) *Options {
 	o := &Options{}
 	for _, name := range names {
 		k := rapid.IntRange(1, 3).Draw(t, "nEP")
-		o.MEs = append(o.MEs, ME{Name: name, Eps: append([]int{}, rapid.Permutation([]int{0, 1, 2, 3}).Draw(t, "eps")[:k]...)})
+		o.MEs = append(o.MEs, ME{Name: name, Eps: append([]int{}, rapid.Permutation([]int{0, 1, 2, 3}).Draw(t, "eps")[:k]...),
+			RMs: rapid.SampledFrom([]int{0, 0, 0, 0, 1, 5}).Draw(t, "rms"), DMs: rapid.SampledFrom([]int{0, 0, 0, 0, 1, 5, 20}).Draw(t, "dms")})
 	}
 	o.Default = rapid.IntRange(0, n-1).Draw(t, "def")
 	return o
@@ -40,6 +41,8 @@ func genCase(t *rapid.T, withInvalid bool) *Case {
 	kinds := []string{"update", "update", "down", "down", "up", "up", "rpc"}
 	if withInvalid {
 		kinds = append(kinds, "bad", "bad", "bad")
+	} else {
+		kinds = append(kinds, "update", "bad") // rejected updates also occur in C15 histories: what follows them must still satisfy C15
 	}
 	c.Ops = rapid.SliceOfN(rapid.Custom(func(t *rapid.T) Op {
 		switch k := rapid.SampledFrom(kinds).Draw(t, "op"); k {
